@@ -17,6 +17,7 @@ func c02Random(seed uint64, i int, ntexts int) *c01Case {
 	sc := gen.DefaultScope
 	sc.CapHeavy = true
 	sc.Globals = i%4 == 0
+	sc.GlobalCaps = true
 	sc.Preds = false
 	sc.WordAnch = i%3 == 0
 	if i%2 == 0 {
@@ -220,7 +221,7 @@ func C02(r *drv.Run) {
 	r.Assumptions = []string{
 		"named-loop variable maps are compared after dropping iteration entries that hold nothing (vore opens the map of an iteration before it knows whether the iteration will run)",
 		"reference matcher semantics as in C01 (word-anchor boundary cases are don't-care)",
-		"captures never under loops with a minimum >= 1 (vore rejects: name clash) nor inside global patterns",
+		"captures inside `set ... to pattern` bodies are included (bound at run time like any other; only the defining body can back-reference them)",
 	}
 	shapes := enumCaptureShapes()
 	texts := allTexts("ab", 4)
@@ -236,7 +237,7 @@ func C02(r *drv.Run) {
 	r.Extra["exhaustive_shapes"] = fmt.Sprintf("%d programs x %d texts, enumerated completely in both tiers", len(shapes), len(texts))
 	r.Exec(nprog, drv.ExecOpts{Batch: 250}, func(i int) *drv.Item {
 		cs := c02Random(r.Seed, i, ntext)
-		if !hasCapture(cs.prog.Commands[0].Body) {
+		if !hasCapture(cs.prog.Commands[0].Body) && len(gen.GlobalCaptureNames(cs.prog, cs.prog.Commands[0].Body)) == 0 {
 			r.Count("programs_without_capture_skipped", 1)
 			return nil
 		}
